@@ -138,12 +138,85 @@ def writer_modes(repo):
         _sha(_src(fns['write'], text) + (_src(fns['_align_to_ids'], text) if '_align_to_ids' in fns else ''))
 
 
+# The file layer both readers (UCD, FrontISTR) go through.  The models take
+# "the lines of the file as it is now" as input; that is only true when
+# StringSeries.read_file really opens the file on every call and read_files
+# only concatenates / lists what read_file returns.  Expected bodies, compared
+# as ASTs (docstrings ignored, no decorator other than classmethod, no other
+# module-level function or cache in between).
+READ_FILE_SRC = '''
+@classmethod
+def read_file(cls, file_name, *, pattern_ignore=None):
+    print(f"Reading file: {file_name}")
+    s = pd.read_csv(
+        file_name, header=None, index_col=None, sep='@', dtype=str)[0]
+    if pattern_ignore is None:
+        return cls(s)
+    else:
+        return cls(s).find_match(
+            pattern_ignore, negative_match=True)
+'''
+READ_FILES_SRC = '''
+@classmethod
+def read_files(cls, file_names, *, pattern_ignore=None, separate=False):
+    if separate:
+        list_string_series = ListStringSeries([
+            cls.read_file(file_name, pattern_ignore=pattern_ignore)
+            for file_name in file_names])
+        if len(list_string_series) == 1:
+            return list_string_series[0]
+        else:
+            return list_string_series
+    else:
+        return cls(pd.concat([
+            cls.read_file(file_name, pattern_ignore=pattern_ignore)
+            for file_name in file_names]))
+'''
+
+
+def _norm_fn(fn):
+    fn = ast.parse(ast.unparse(fn)).body[0]      # detach from the file
+    fn.body = _strip_doc(fn.body)
+    return _dump(fn)
+
+
+def file_layer(repo):
+    """fail-closed check that the readers see the current content of the file"""
+    p = Path(repo) / 'femio' / 'util' / 'string_parser.py'
+    text = p.read_text()
+    tree = ast.parse(text)
+    cls = [c for c in tree.body if isinstance(c, ast.ClassDef) and c.name == 'StringSeries']
+    if len(cls) != 1:
+        raise TranslateError('class StringSeries not found')
+    fns = {f.name: f for f in cls[0].body if isinstance(f, ast.FunctionDef)}
+    for name, src in (('read_file', READ_FILE_SRC), ('read_files', READ_FILES_SRC)):
+        if name not in fns:
+            raise TranslateError(f'StringSeries.{name} not found')
+        want = _norm_fn(ast.parse(src.strip()).body[0])
+        if _norm_fn(fns[name]) != want:
+            raise TranslateError(
+                f'StringSeries.{name} is not the recognised body (it must read the file on every call: '
+                f'print; pd.read_csv(file_name, header=None, index_col=None, sep="@", dtype=str)[0]; cls(s))')
+    # nothing at module level may memoise (functools caches, module dicts used as caches)
+    for n in ast.walk(tree):
+        if isinstance(n, (ast.Import, ast.ImportFrom)):
+            names = [a.name for a in n.names] + ([n.module] if isinstance(n, ast.ImportFrom) and n.module else [])
+            if any(x and x.split('.')[0] == 'functools' for x in names):
+                raise TranslateError('string_parser imports functools (memoised file reading is not modelled)')
+        if isinstance(n, (ast.FunctionDef, ast.ClassDef)) and any(
+                'cache' in ast.unparse(d) for d in n.decorator_list):
+            raise TranslateError(f'{n.name} is decorated with a cache')
+    return _sha(ast.unparse(fns['read_file']) + ast.unparse(fns['read_files']))
+
+
 def translate(repo):
     et, s1 = element_types(repo)
     modes, s2 = writer_modes(repo)
-    return {'element_types': et, **modes}, {
+    s3 = file_layer(repo)
+    return {'element_types': et, **modes, 'reads_file_every_call': True}, {
         'femio/fem_elemental_attribute.py:ELEMENT_TYPES': s1,
-        'femio/formats/ucd/write_ucd.py:UCDWriter.write': s2}
+        'femio/formats/ucd/write_ucd.py:UCDWriter.write': s2,
+        'femio/util/string_parser.py:StringSeries.read_file+read_files': s3}
 
 
 def emit(cfg):
@@ -157,7 +230,9 @@ def emit(cfg):
         'From FV.C04 Require Import Text Model.\nOpen Scope string_scope.\n'
         'Definition element_types : list str :=\n  [' + '; '.join(cs(t) for t in cfg['element_types']) + '].\n'
         f"Definition cfg : wcfg := {{| nodal_by_id := {b(cfg['nodal_by_id'])}; "
-        f"elemental_by_id := {b(cfg['elemental_by_id'])} |}}.\n")
+        f"elemental_by_id := {b(cfg['elemental_by_id'])} |}}.\n"
+        '(* StringSeries.read_file / read_files have the recognised bodies: the file is read on every call *)\n'
+        f"Definition reads_file_every_call : bool := {b(cfg.get('reads_file_every_call', False))}.\n")
 
 
 if __name__ == '__main__':
